@@ -545,6 +545,7 @@ type Summary struct {
 	AssertsOK     map[string]int
 	AssertsSeen   map[string]int
 	Findings      []Finding
+	Probes        []ProbeSpec         // input descriptions of paths with an obligation left unknown
 	OkModels      []map[string]string // models of a sample of clean paths (translator validation)
 	FindingCounts map[string]int // per obligation / panic site: how many paths reached it failing
 	Unknown       []string
@@ -623,7 +624,7 @@ func (e *Engine) Explore(fn *ssa.Function, workers []*Worker, opts ExploreOpts) 
 						sum.FindingCounts = map[string]int{}
 					}
 					sum.FindingCounts[key]++
-					if sum.FindingCounts[key] <= 3 {
+					if sum.FindingCounts[key] <= 40 {
 						sum.Findings = append(sum.Findings, f)
 					}
 				}
@@ -632,6 +633,9 @@ func (e *Engine) Explore(fn *ssa.Function, workers []*Worker, opts ExploreOpts) 
 				}
 				for _, a := range res.InternalAsms {
 					sum.InternalAsm[a]++
+				}
+				if len(sum.Probes) < 6 {
+					sum.Probes = append(sum.Probes, res.Probes...)
 				}
 				if res.OkModel != nil {
 					sum.OkModels = append(sum.OkModels, res.OkModel)
@@ -675,7 +679,7 @@ func (e *Engine) Explore(fn *ssa.Function, workers []*Worker, opts ExploreOpts) 
 						unknownFindings++
 					}
 				}
-				if unknownFindings >= 36 && (len(work) > 0 || active > 0) && !stopped {
+				if unknownFindings >= 120 && (len(work) > 0 || active > 0) && !stopped {
 					sum.Incomplete = append(sum.Incomplete, fmt.Sprintf("exploration stopped after %d counterexample candidates (%d work items left)", len(sum.Findings), len(work)))
 					stopped = true
 				}
